@@ -86,3 +86,13 @@ package ice
 //@ lemma C05 loserSwitchesOnConflict: forall ctrl bool, tbA int, tbB int :: !keeps(ctrl, tbA, tbB) ==> nextRole(ctrl, tbA, tbB, ctrl) == !ctrl
 //@ lemma C05 oppositeRolesAbsorbing: forall ra bool, rb bool, tbA int, tbB int :: ra != rb ==> nextRole(ra, tbA, tbB, rb) == ra && nextRole(rb, tbB, tbA, ra) == rb
 //@ lemma C05 staleMessageCannotUnsettle: forall ctrl bool, tbA int, tbB int :: tbA != tbB && !keeps(ctrl, tbA, tbB) ==> nextRole(nextRole(ctrl, tbA, tbB, ctrl), tbA, tbB, ctrl) == !ctrl && keeps(ctrl, tbB, tbA)
+
+// The success response: protected with the LOCAL password (the peer verifies it with the password it was
+// signalled), carrying the request's transaction (the request message is the first setter) and the source of the
+// request as the mapped address, sent back over the pair the request came on.
+//@ func (*Agent).sendBindingSuccess
+//@   props C02 C05
+//@   opt nosafety
+//@   site call NewShortTermIntegrity#1 assert the-response-is-keyed-with-the-local-password: arg0 == a.localPwd
+//@   site call findPair#1 assert response-accounting-goes-to-the-pair-of-the-request: arg1 == local && arg2 == remote
+//@   site call sendSTUN#1 assert answers-over-the-pair-the-request-came-on: arg2 == local && arg3 == remote
